@@ -7,7 +7,7 @@ import ast
 from ..index import ClassInfo, FuncInfo
 from ..nf import NF, Atom, Undecided, app, atoms_of, lift, nf_equal, single_atom, sym
 from ..values import NONE, Cond, ListV, NoneV, Num, ObjV, OpaqueV, StrV, TupleV, valkey
-from .common import atoms_of_cond, both_polarities, K, N, Pdim, call_method, data_sym, guard_outcomes, new_executor, raise_loc, returns, run
+from .common import atoms_of_cond, both_polarities, K, N, Pdim, call_method, data_sym, guard_outcomes, new_executor, norm_src, raise_loc, returns, run
 
 EXPLANATION = (
     "Static decision by exhaustive path enumeration of evaluate() for every registered scorer (the `_evaluate` kernels are cut off "
@@ -49,7 +49,7 @@ def check(ctx):
             ctx.undecided("C13 TABLE", name, "", "registered scorer without a scenario (unspecified instance)")
     n_k = 0
     for pkg, name, width, inner in SCORERS:
-        for mode in ("shape-unknown", "shape-known"):
+        for mode in ("shape-unknown", "any-container", "shape-known"):
             ctx.guard("C13.a CHECK-DOMINATES-KERNEL", f"{name}|{mode}", lambda: check_scorer(ctx, pkg, name, width, inner, mode))
             n_k += 1
     ctx.expect_min("C13.b SANITISE-RANGE", sum(1 for o in ctx.obs if o.rule == "C13.b SANITISE-RANGE" and o.status == "HOLDS"), 16)
@@ -112,6 +112,9 @@ def check_scorer(ctx, pkg, name, width, inner, mode):
         if mode == "shape-known":
             cuts = Num(sym("cuts"), (K, NF.const(width)), "int", "ndarray", meta={"foreign": True})
             ex.atom_shapes[Atom("sym", "cuts").key] = (K, NF.const(width))
+        elif mode == "any-container":
+            # a list / tuple / ndarray / frame: which container the caller used is not known
+            cuts = Num(sym("cuts"), None, None, "arraylike", meta={"foreign": True})
         else:
             cuts = Num(sym("cuts"), None, None, "ndarray", meta={"foreign": True})
         return call_method(ex, obj, "evaluate", cuts)
@@ -224,7 +227,24 @@ def check_scorer(ctx, pkg, name, width, inner, mode):
 
         fired = [p for p in paths if any(dtype_fact(c, v) is False for c, v in both_polarities(p.facts))]
         ok = bool(fired) and all(p.outcome == "raise" and p.exc.exc_name == "ValueError" for p in fired) and all(any(dtype_fact(c, v) is True for c, v in both_polarities(p.facts)) for p in reach)
-        ctx.check(ok, "C13.c CHECK-COMPLETE", f"{name}|dtype", raise_loc(fired[0], loc) if fired else loc, "non-integer cuts are rejected with ValueError on every path to the kernel", found=f"{len(fired)} rejecting paths")
+        ctx.check(ok, "C13.c CHECK-COMPLETE", f"{name}|{mode}|dtype" if mode != "shape-unknown" else f"{name}|dtype", raise_loc(fired[0], loc) if fired else loc, "non-integer cuts are rejected with ValueError on every path to the kernel", found=f"{len(fired)} rejecting paths")
+        # the dtype that is tested is the caller's: no conversion to an integer type (which truncates fractions silently)
+        # happens before the test has been passed
+        ckey = Atom("sym", "cuts").key
+        early = {}
+        n_cast = 0
+        for p in paths:
+            for e in p.events:
+                if e.kind != "cast":
+                    continue
+                v = e.data["value"]
+                if not (isinstance(v, Num) and v.nf is not None and ckey in atoms_of(v.nf)):
+                    continue
+                n_cast += 1
+                if e.data["dtype"] != "float" and not any(dtype_fact(c, vv) is True for c, vv in both_polarities(list(e.facts))):
+                    early.setdefault(e.loc(), e)
+        for l, e in early.items():
+            ctx.violation("C13.c CHECK-COMPLETE", f"{name}|{mode}|cast-before-dtype-check", l, "the cuts are converted to an integer (or caller-independent) dtype before their own dtype has been tested: fractional cuts are truncated and scored silently", found=f"{e.data['how']} to {e.data['dtype'] or 'a computed dtype'}: {norm_src(e.node)[:80]}", expected="np.issubdtype(cuts.dtype, np.integer) established first")
         firedw = [p for p in paths if p.outcome == "raise" and any(wd(c) for c, v in both_polarities(p.facts)) and p.exc.func is not None and "check_cuts" in p.exc.func.name]
         okw = bool(firedw) and all(p.exc.exc_name == "ValueError" for p in firedw) and all(any(wd(c) for c, v in both_polarities(p.facts)) for p in reach)
         ctx.check(okw, "C13.c CHECK-COMPLETE", f"{name}|width", raise_loc(firedw[0], loc) if firedw else loc, "a cuts array with the wrong number of columns is rejected with ValueError", found=f"{len(firedw)} rejecting paths")
